@@ -24,41 +24,30 @@ structure InDomain (ps : Nat) (t : TypeSpec) : Prop where
   aligns : ∀ f ∈ t.fields, f.align = 1 ∨ f.align = 2 ∨ f.align = 4 ∨ f.align = 8 ∨ f.align = 16
   small : bound ps t < 2 ^ 32
 
-/-- the layout lemmas' hypotheses, read off `InDomain` -/
-theorem InDomain.verdict_spec {ps : Nat} {t : TypeSpec} (h : InDomain ps t) :
-    (Realisable ps t →
-      verdict ps t = .ok (totalSize ps t, if t.packed then 1 else effAlign ps t)) ∧
-    (¬ Realisable ps t → ∃ m, verdict ps t = .err m) :=
-  Layout.verdict_spec ps t h.ps_ok h.aligns (by
-    have := h.small
-    unfold bound at this
-    unfold Layout.wt usizeMax
-    omega)
-
 /-- **C03.**  A description in the domain is accepted if and only if it is realisable. -/
 theorem accepts_iff_realisable (ps : Nat) (t : TypeSpec) (h : InDomain ps t) :
     (verdict ps t).isOk = true ↔ Realisable ps t := by
   refine ⟨fun hv => Classical.byContradiction fun hn => ?_, fun hr => ?_⟩
-  · obtain ⟨m, hm⟩ := h.verdict_spec.2 hn
+  · obtain ⟨m, hm⟩ := (verdict_spec_of_small ps t h.ps_ok h.aligns h.small).2 hn
     rw [hm] at hv
     cases hv
-  · rw [h.verdict_spec.1 hr]
+  · rw [(verdict_spec_of_small ps t h.ps_ok h.aligns h.small).1 hr]
     rfl
 
 /-- every other description fails with an *error* (never a panic, never "try again later") -/
 theorem rejects_with_error (ps : Nat) (t : TypeSpec) (h : InDomain ps t) (hn : ¬ Realisable ps t) :
     ∃ m, verdict ps t = .err m :=
-  h.verdict_spec.2 hn
+  (verdict_spec_of_small ps t h.ps_ok h.aligns h.small).2 hn
 
 /-- an accepted description gets the declared (or natural) size and the effective alignment -/
 theorem accepted_size_align (ps : Nat) (t : TypeSpec) (h : InDomain ps t) (s a : Nat)
     (hv : verdict ps t = .ok (s, a)) :
     s = totalSize ps t ∧ a = (if t.packed then 1 else effAlign ps t) := by
   have hr : Realisable ps t := Classical.byContradiction fun hn => by
-    obtain ⟨m, hm⟩ := h.verdict_spec.2 hn
+    obtain ⟨m, hm⟩ := (verdict_spec_of_small ps t h.ps_ok h.aligns h.small).2 hn
     rw [hm] at hv
     cases hv
-  rw [h.verdict_spec.1 hr] at hv
+  rw [(verdict_spec_of_small ps t h.ps_ok h.aligns h.small).1 hr] at hv
   cases hv
   exact ⟨rfl, rfl⟩
 
